@@ -26,7 +26,7 @@ CLAIMED = {
    design="§8 C07, §15"),
  "C09": dict(
    text="Theorems over every schedule of the region-level model (Bolt): whatever was handed to a subscriber had been persisted before; a Dispatch that returned without error had persisted its update; the store is the accepted sequence minus a discarded prefix with every update at the position it was given (positions never change); nothing is lost without retention, the last `size` are stored with it; a crash in ANY state followed by a restart keeps the committed store, its sequence and positions, reports the last stored id and reloads the sequence. Tie: the instrumented transport in a child process SIGKILLs itself at every synchronisation point inside and around every publish (retention on/off); the parent reopens the file (bbolt and NewBoltTransport) and compares with the model's crash+restart; oracles on the file alone.",
-   note=TB + REGION + "PARTIAL: atomicity/durability of one bbolt transaction and 'the file always reopens' are assumptions (the model's db.Update is one step), exercised by the kill runs, not proved; kill points inside bbolt's commit are not reached.",
+   note=TB + REGION + "PARTIAL: atomicity/durability of one bbolt transaction and 'the file always reopens' are assumptions (the model's db.Update is one step), exercised by the kill runs — which include every point inside the transaction (bucket, sequence, Put, cleanup, each Delete) and inside bbolt's own Commit (before the data pages, between data and meta page, after the meta page; instrumented copy of bbolt's tx.go) — not proved; a process kill keeps the page cache, so torn or reordered writes of a power loss are not simulated.",
    technique="Lean 4 proof (inductive invariant over all schedules) + kill-point enumeration correspondence",
    design="§8 C09"),
  "C13": dict(
